@@ -381,6 +381,7 @@ func Run(opt Options, setup func(x *Exec), body func(x *Exec)) *Exec {
 		x.MaxSteps = 20000
 	}
 	x.t0 = time.Now()
+	reseed()
 	x.ExecID = execCounter.Add(1)
 	if setup != nil {
 		setup(x)
